@@ -112,3 +112,30 @@ Definition set_xai_plus_y (n ai y : Z) (buf : list Z) : list Z * list Z :=
   let raw1 := upd buf idx (if ai <? n then 1 else -1) in
   let raw2 := upd raw1 0 (wadd 64 (nthZ raw1 0) y) in
   (raw2, upd (upd raw2 idx 0) 0 0).
+
+(* ---- configuration histories of a LookupTable (lut.rs: alloc, set_rotation_direction, set) ----
+   LookupTable { data, drift, rot_dir, (base2k, k fixed at alloc) }.  `set` rewrites data and drift and leaves rot_dir
+   as it is; `set_rotation_direction` touches rot_dir only; `alloc` starts from zero data, drift 0, Left. *)
+Record lstate := { st_data : lut; st_drift : Z; st_left : bool }.
+Definition lut_alloc (n ext : nat) (b klut : Z) : lstate :=
+  {| st_data := repeat (repeat (zlimb n) (Z.to_nat (div_ceil klut b))) ext; st_drift := 0; st_left := true |}.
+Inductive levent := EDir (left : bool) | ESet (kmsg : Z) (f : list Z).
+Definition apply_event (n ext : nat) (b klut : Z) (st : lstate) (ev : levent) : option lstate :=
+  match ev with
+  | EDir l => Some {| st_data := st_data st; st_drift := st_drift st; st_left := l |}
+  | ESet kmsg f =>
+      match lookup_table_set n ext b klut kmsg f with
+      | Some (d, dr) => Some {| st_data := d; st_drift := dr; st_left := st_left st |}
+      | None => None
+      end
+  end.
+Fixpoint run_events (n ext : nat) (b klut : Z) (evs : list levent) (st : lstate) : option lstate :=
+  match evs with
+  | [] => Some st
+  | ev :: t => match apply_event n ext b klut st ev with Some st' => run_events n ext b klut t st' | None => None end
+  end.
+(* spec: the direction requested last (default: the one the history started with), the table set last *)
+Definition last_dir (evs : list levent) (l0 : bool) : bool :=
+  fold_left (fun l ev => match ev with EDir d => d | ESet _ _ => l end) evs l0.
+Definition last_set (evs : list levent) (o0 : option (Z * list Z)) : option (Z * list Z) :=
+  fold_left (fun o ev => match ev with ESet k f => Some (k, f) | EDir _ => o end) evs o0.
